@@ -4,8 +4,9 @@ from . import hir
 from .core import Out
 from .rules_tables import last
 from .rules_struct import place
+from . import roles
 
-CONV = ("document::as_position", "document::as_pos_range")
+CONV = ("document::as_position", "document::as_pos_range")  # default; replaced per program by roles.conv()
 
 
 def _defs(body):
@@ -37,6 +38,9 @@ def _params(body):
     return res
 
 
+_CONV_NOW = {"names": CONV}
+
+
 def from_conv(e, body, dmap, pmap, depth=0):
     """True / False / ('param', i, name): is the value derived only from as_position/as_pos_range results?"""
     if depth > 15 or e is None:
@@ -45,7 +49,7 @@ def from_conv(e, body, dmap, pmap, depth=0):
     k = e.get("k")
     if k == "Call":
         d = hir.callee_display(e) or ""
-        if d in CONV:
+        if d in _CONV_NOW["names"]:
             return True
         return False
     if k == "Path" and e["res"].get("k") == "Local":
@@ -95,6 +99,12 @@ def from_conv(e, body, dmap, pmap, depth=0):
 def rule_pos_conv(prog):
     out = Out("POS-CONV")
     c = prog.lsp
+    cv = roles.conv(prog)
+    if "as_position" not in cv or "get_insertion_index" not in cv or "as_pos_range" not in cv:
+        out.missing("position conversion functions (usize,&str)->Position / (&Position,&str)->usize / (&Range<usize>,&str)->lsp Range")
+        return out
+    _CONV_NOW["names"] = (cv["as_position"]["d"], cv["as_pos_range"]["d"])
+    conv_ds = set(v["d"] for v in cv.values())
     bodies = [b for b in c.bodies if "/tests" not in c.file_of(b["sp"]) and "_serde" not in b["d"] and b["k"] in ("fn", "assoc_fn")]
     by_disp = {}
     for b in bodies:
@@ -129,10 +139,9 @@ def rule_pos_conv(prog):
                 "UTF-16 columns); this value is computed some other way")
 
     def _conv_fn(x):
-        return x["d"] in ("document::as_position", "document::get_insertion_index")
+        return x["d"] in (cv["as_position"]["d"], cv["get_insertion_index"]["d"])
 
-    conv_helpers = set(b["p"] for b in bodies if c.file_of(b["sp"]).endswith("document.rs") and not _conv_fn(b)
-                       and hir.only_called_from(prog, b["p"], _conv_fn))
+    conv_helpers = set(b["p"] for b in bodies if not _conv_fn(b) and hir.only_called_from(prog, b["p"], _conv_fn))
     for b in bodies:
         f = c.file_of(b["sp"])
         if b["p"] in conv_helpers:
@@ -161,7 +170,7 @@ def rule_pos_conv(prog):
                     if e.get("k") == "Call" and hir.path_def(e["f"]) and last(hir.path_def(e["f"]).get("ctor_of", "")) == "Some":
                         e = e["args"][0]
                     check(e, b, "%s.range derives from as_pos_range" % nm, c.loc(s["sp"]))
-            elif nm == "Range" and b["d"] != "document::as_pos_range":
+            elif nm == "Range" and b["d"] != cv["as_pos_range"]["d"]:
                 n += 1
                 out.add(b["d"], "lsp Range literal only in document::as_pos_range", False, c.loc(s["sp"]), "")
             elif nm == "SemanticToken":
